@@ -47,7 +47,7 @@ type Engine struct {
 
 	maxSteps, maxBranches, maxDepth, maxAlloc, maxConcreteAlloc int
 	allMapOrders, ignoreGo, symFloatFree                        bool
-	solverKind                                                  string
+	solverKind, logic                                           string
 	queryTimeoutMs                                              int
 	params                                                      map[string]int
 	collisionFree                                               map[string]bool // UF names with injectivity axiom
@@ -181,7 +181,7 @@ var initDeny = map[string]bool{
 
 func (e *Engine) newInterp() (*Interp, error) {
 	ctx := NewCtx()
-	sol, err := NewSolver(e.solverKind, ctx, e.queryTimeoutMs)
+	sol, err := NewSolver(e.solverKind, ctx, e.queryTimeoutMs, e.logic)
 	if err != nil {
 		return nil, err
 	}
